@@ -37,6 +37,9 @@ def build_msg(spec, delta):
         return mido.MetaMessage('text', text=f't{spec[1]}', time=delta)
     if k == 'eot':
         return mido.MetaMessage('end_of_track', time=delta)
+    if k == 'umeta':
+        from mido.midifiles.meta import UnknownMetaMessage
+        return UnknownMetaMessage(0x60 + spec[1] % 8, (spec[1] % 128,), time=delta)
     raise ValueError(k)
 
 
@@ -131,6 +134,8 @@ class Playback(BaseEngine):
                     spec = ['tempo', pick(rng, TEMPOS) if rng.random() < 0.6 else rng.randint(1, 16777215)]
                 elif r < tempo_bias + 0.1:
                     spec = ['text', counter]
+                elif r < tempo_bias + 0.13:
+                    spec = ['umeta', counter]
                 elif r < tempo_bias + 0.17:
                     spec = ['eot']
                 elif r < tempo_bias + 0.25:
